@@ -4,7 +4,7 @@
    Proofs: Argsort, Table (C07_sort_to_match, rank_of_rank), ConvDirM. *)
 From Coq Require Import QArith List ZArith Permutation.
 Import ListNotations.
-From SedV Require Import PLin Argsort Table ConvolveM ConvDirM.
+From SedV Require Import PLin Argsort Table ConvolveM ConvDirM OrderPerm.
 Close Scope Q_scope.
 
 (* per-file format: rows follow the parameter table, the row labelled X is computed from SED X *)
@@ -48,6 +48,14 @@ Proof. exact conv_sed_storage_order. Qed.
 (* the index identity of sort_to_match *)
 Theorem C07_sort_to_match : forall a r, NoDup r -> Permutation a r -> gatherK a (order_to_match a r) = r.
 Proof. exact Table.C07_sort_to_match. Qed.
+
+(* sort_to_match uses every row exactly once: its index list is a permutation of 0 .. n-1, so no model row is dropped or
+   duplicated whatever the two name orders are *)
+Theorem C07_sort_rows_once : forall a r, length a = length r -> Permutation (order_to_match a r) (seq 0 (length a)).
+Proof. exact order_to_match_perm. Qed.
+
+Theorem C07_sort_length : forall a r, length (order_to_match a r) = length r.
+Proof. exact order_to_match_length. Qed.
 
 Example C07_example : order_to_match [30; 10; 20]%Z [20; 30; 10]%Z = [2; 0; 1]%nat.
 Proof. reflexivity. Qed.
